@@ -144,6 +144,11 @@ def run(ctx):
         "unit: 2^e of the result (asFloat64_within_ulp_u/_i) and 2^k of the exact value's binade "
         "(asFloat64_within_ulp_of_value_u/_i; they differ only when the result is rounded up to a power of two); the "
         "bound is attained up to 1 (hi = 2^53+1, lo = 2^64-1: error 2^65-1, unit 2^65) and needs ties-to-even",
+        "Scan: text printed with a base verb reads back with the same verb is proved on the model for every value of "
+        "both types, any sign form and any zero padding: decimal, binary, octal (%o and %O) and hexadecimal in lower and "
+        "in upper case (C02.scan_reads_back_dec/_bin/_oct/_hex/_hex_upper), the hexadecimal texts containing the digit "
+        "e/E included (they take the big.Rat branch: hexadecimal mantissa, no radix point, no exponent, denominator 1); "
+        "widths, flags other than the sign and fmt's tokenisation are library plumbing (areas scan, glue)",
         "FromString `rejects text that is not an integer` is proved in both directions for every text "
         "(C02.fromString_rejects, C02.fromString_spec): the accepted texts are exactly the literals of a declarative "
         "grammar with their denoted value -- Conv.IsPlainIntLiteral for texts without e/E (sign, 0b/0o/0x/legacy-0 "
